@@ -90,6 +90,12 @@ def check_tables(ctx, lane, scenes, egos, div, index):
             return
         try:
             an = PerceptionAnalyzer3D(lane.config, num_area_division=div)
+            # every other analysis runs on a recycled analyzer: it has tabulated a scene before and was cleared (add, clear, add).
+            # What it holds afterwards is what was added since.  (A function of the history, not a draw: replays exactly.)
+            if (len(scenes[0]) + len(scenes) + (index or 0)) % 2 == 0:
+                an.add(X.pickle_roundtrip(scenes[0]))
+                an.clear()
+                ctx.probe("c19_recycled_analyzer")
             for s in stored:
                 an.add(s)
         except Exception as e:  # noqa
